@@ -390,6 +390,11 @@ class Emitter:
         for c in cands:
             if c in self.p.typedef or c in self.p.record or c in self.p.enum:
                 return c
+        # nested class / typedef mentioned without its enclosing class: unique suffix match
+        suf = '::' + name
+        hits = [q for q in list(self.p.record) + list(self.p.typedef) + list(self.p.enum) if q.endswith(suf)]
+        if len(set(hits)) == 1:
+            return hits[0]
         return name
 
     def canon(self, ty, scope=()):
@@ -401,6 +406,24 @@ class Emitter:
             return t
         if ty.kind == 'func':
             return Ty('func', inner=self.canon(ty.inner, scope), params=[self.canon(x, scope) for x in ty.params])
+        if ty.params and len(ty.params) >= 2:
+            last = ty.params[-1][0]
+            outer = '::'.join(p[0] for p in ty.params[:-1])
+            oargs = ty.params[-2][1]
+            pick = None
+            if last in ('value_type', 'reference', 'const_reference'):
+                pick = 1 if outer.endswith('__alloc_traits') else (0 if outer in ('std::vector', 'std::set', 'std::unordered_set', 'std::initializer_list', 'std::queue') else None)
+            elif last == 'mapped_type' and outer in ('std::map', 'std::unordered_map'):
+                pick = 1
+            elif last == 'key_type' and outer in ('std::map', 'std::unordered_map', 'std::set', 'std::unordered_set'):
+                pick = 0
+            elif last in ('size_type', 'difference_type'):
+                return Ty('name', 'unsigned long' if last == 'size_type' else 'long', [], ty.const)
+            if pick is not None and pick < len(oargs):
+                t = self.canon(oargs[pick], scope)
+                if ty.const:
+                    t = Ty(t.kind, t.name, t.args, True, t.inner, t.params, t.size)
+                return t
         name = self.resolve_name(ty.name, scope)
         if name.split('::')[-1] == 'basic_string' or name in ('std::string', 'string'):
             return Ty('name', 'std::string', [], ty.const)
@@ -1472,6 +1495,23 @@ class FuncEmitter:
         m = self.em.models.lookup(self.em, t)
         if m is not None:
             return m.init_list(self, n)
+        if t.kind == 'name' and t.name in self.em.p.record and not t.args:
+            # aggregate initialisation: fields in declaration order
+            tu, r = self.em.p.record[t.name]
+            fields = [c for c in r.get('inner', []) if c.get('kind') == 'FieldDecl']
+            abstract = self.em.opts.get('abstract_fields', {}).get(t.name)
+            inner = n.get('inner', [])
+            if len(inner) > len(fields):
+                brk('aggregate initialiser with too many elements for %s' % t.name)
+            self.em.need_record(t.name)
+            tmp = self.new_tmp('struct ' + self.em.rec_cname(t.name))
+            parts = []
+            for f, e in zip(fields, inner):
+                if abstract is not None and f['name'] not in abstract:
+                    continue
+                parts.append('%s.%s = %s' % (tmp, f['name'], self.expr(e)))
+            parts.append(tmp)
+            return '(%s)' % ', '.join(parts)
         brk('InitListExpr of type %r' % t)
 
     def e_CXXStdInitializerListExpr(self, n):
